@@ -4,36 +4,233 @@ HOOK_COMMITS = []
 
 ENGINES = [
     {'name': 'E1-vsched', 'path': '/verif/vmc/sched.py',
-     'serves_properties': ['C03', 'C04', 'C05', 'C13', 'C15', 'C20'],
-     'kind_free_text': 'deterministic cooperative scheduler + stateless DFS explorer '
-                       '(preemption/delay bounded) over the real implementation'},
-    {'name': 'E2-fake-courier', 'path': '/verif/vmc/fake_courier',
+     'serves_properties': ['C03', 'C04', 'C05', 'C06', 'C13', 'C14', 'C15', 'C16',
+                           'C20'],
+     'kind_free_text': 'deterministic cooperative scheduler (baton passing between '
+                       'real threads, virtual clock) + stateless DFS explorer over '
+                       'choice sequences (preemption / delay / deviation bounded, '
+                       'happens-before caching) running the real implementation'},
+    {'name': 'E2-fake-courier', 'path': '/verif/vmc/fake_courier/__init__.py',
      'serves_properties': ['C06', 'C14', 'C15', 'C16', 'C20'],
-     'kind_free_text': 'in-process transport with exhaustive fault menu'},
+     'kind_free_text': 'in-process courier transport executing the real bound '
+                       'handlers, with an exhaustive fault menu (deadline before / '
+                       'after the handler, worker death)'},
     {'name': 'E3-enumerators', 'path': '/verif/vmc/enums.py',
      'serves_properties': ['C01', 'C02', 'C07', 'C08', 'C09', 'C10', 'C11', 'C12',
                            'C17', 'C18', 'C19'],
-     'kind_free_text': 'bounded-exhaustive enumeration of inputs/programs/histories '
-                       'against boring reference models; explicit-state BFS'},
+     'kind_free_text': 'bounded-exhaustive enumeration of inputs / programs / '
+                       'histories against boring reference models; explicit-state '
+                       'BFS with replay-from-scratch'},
 ]
 
 NOTES = ('All checks: ./check <ID> --tier quick|thorough; evidence in '
          '/verif/evidence/<ID>.json; violations listed in KNOWN_FINDINGS.txt are '
-         'printed as KNOWN-FINDING and do not fail the check.')
+         'printed as KNOWN-FINDING and do not fail the check. No source hooks in '
+         '/repo: all seams are module-global rebinding inside the checker process.')
 
-_E3 = 'bounded-exhaustive enumeration (small-scope model checking of operation sequences/inputs) against a reference model, on the real code'
+_E3 = ('bounded-exhaustive enumeration (small-scope model checking of inputs / '
+       'operation sequences) on the real code against a reference model')
+_E1 = ('stateless model checking of the implementation: exhaustive DFS over '
+       'thread schedules within a preemption/delay bound under a deterministic '
+       'scheduler (happens-before caching)')
+_E12 = ('exhaustive fault-placement enumeration (deviation bounded) over the real '
+        'scheduler code on a fake transport with virtual time, plus bounded '
+        'schedule exploration')
+_GIL = ('sequential consistency at bytecode granularity (CPython GIL); scheduling '
+        'points at every lock/condition/queue/future operation and at every '
+        'access to a mutable field of the shared objects; trusted: the vmc shims '
+        '(litmus self-tests in setup), CPython')
+
+
+def _c(engine, level, technique, text, note):
+  return dict(ready=True, engine=engine, level=level, technique=technique,
+              text=text, note=note)
+
 
 CHECKS = {
-    'C19': dict(
-        ready=True, engine='E3-enumerators', level='exploration',
-        technique=_E3,
-        text=('Every sequence of <=4 (thorough: <=5) input batch sizes x target '
-              'x 1-3 columns x container kinds x pad x given/inferred column '
-              'count is run through the real rebatched_args and through '
-              'apply/select(batch_size, fn_batch_size); output compared with '
-              'concat-and-chunk on Python lists. Exhaustive within the bound; '
-              'the carry-over/flush logic has no branch that needs more than '
-              '3 pending input batches.'),
-        note=('small-scope hypothesis: sizes <= 5, targets <= 6; rows are '
-              'tagged integers; trusted: numpy, the 15-line list oracle')),
+    'C01': _c('E3-enumerators', 'exploration', _E3,
+              'Every shipped mergeable accumulator x configuration (83 catalogue '
+              'entries): every dataset of <=3 (thorough 4/5) rows over a colliding '
+              'alphabet x every two-level composition into <=3 shards (empty '
+              'allowed) and batches x every merge order x both APIs must equal one '
+              'accumulator fed once (rtol 1e-9); order-carrying: concatenation; '
+              'reservoir sampler: size/membership/reviewed count; per-example '
+              'outputs must not depend on batch mates (all batches <=3).',
+              'small-scope hypothesis; explicit vocabulary for macro averaging, '
+              'explicit histogram range/edges, non-negative min/max data, '
+              'non-empty rankings; trusted: numpy, the plain-data comparator'),
+    'C02': _c('E3-enumerators', 'exploration', _E3,
+              '8 aggregate configurations x every subset of <=2 (thorough <=3) of '
+              '11 slicers x every stream of <=3 (4) rows over a,b in {1,2} cut every '
+              'way into <=3 batches (incl. the empty stream), run through '
+              'make()(batch), iterate().agg_result / returned AggregateResult and '
+              'update_state+merge_states+get_result; reported dict compared key for '
+              'key and value for value with a 60-line dict-of-lists group-by; '
+              'unsliced values also compared across slicer subsets.',
+              'small scope: total rows <=3/4; >=1 row per batch; trusted: numpy, '
+              'the group-by oracle, fixture aggregates'),
+    'C04': _c('E1-vsched', 'model_checking', _E1,
+              'The real IteratorQueue driven by 1-3 producer threads '
+              '(enqueue_from_iterator) and 1-2 consumer threads (get, get_batch, '
+              'blocking get_batch(k), iteration), capacity 0/1/2: every schedule '
+              'with <=2 preemptions (2 threads), <=1 (3 threads), delay bound 1 (4 '
+              'threads) [thorough: 3 / 2 / 2, 3 items] is executed and checked '
+              'against a list model: conservation, no duplicates, per-producer '
+              'FIFO, end-of-stream with all return values, no deadlock/livelock.',
+              _GIL + '; Condition.notify wakes FIFO, no spurious wake-ups'),
+    'C05': _c('E1-vsched', 'model_checking', _E1,
+              'C04 harness plus one fault: a producer failing at each position, an '
+              'external maybe_stop()/maybe_stop(exc) thread (also arriving before '
+              'a producer starts), starved get/put with a timeout, ignore_error; '
+              '2 threads <=2 preemptions, 3 threads <=1, 4-5 threads all free '
+              'switches at blocking points. Oracle: every consumer ends with the '
+              'injected exception (or the documented end), nobody stays blocked, '
+              'no duplicate, other producers return.',
+              _GIL + '; timed waits expire at quiescence only'),
+    'C06': _c('E1-vsched', 'fault_enumeration', _E12,
+              'as_completed / WorkerPool.run / call_and_wait over real '
+              'CourierServers and sharded_pipelines_as_iterator over real '
+              'PrefetchedCourierServers on the fake transport: every placement of '
+              '<=1 (thorough 2) faults from {deadline before handler, deadline '
+              'after handler (reply lost), worker death} over the task/generator '
+              'RPCs of ~50 configurations (1-3 workers, 1-4 tasks / 1-3 shards, '
+              'failing task, ignore_failures, retry thresholds, push and pull '
+              'heartbeats); results = fault-free reference exactly once, aggregate '
+              'merged exactly once, errors surface, workers released.',
+              'fake transport semantics (DESIGN.md section 6); default schedule for '
+              'fault runs; virtual time passes only at quiescence; trusted: vmc '
+              'shims, fake_courier'),
+    'C07': _c('E3-enumerators', 'exploration', _E3,
+              'Every small label/prediction/ranking/numeric input x every '
+              'ConfusionMatrixMetric / RetrievalMetric x input type x average x '
+              'pos_label x vocab x k-list is evaluated through the accumulator API '
+              'and the one-shot functions and compared with a from-scratch Fraction '
+              'oracle (counts exact, rates rtol 1e-9); aliases, ranges and '
+              'documented rejections are checked without expectations.',
+              'small scope: <=4-5 binary labels, 3 classes, <=3 rows, rankings <=3 '
+              'over 4 ids; trusted: the 625-line oracle (cross-checked by 15 '
+              'mutants)'),
+    'C08': _c('E3-enumerators', 'exploration', _E3,
+              'All operator chains of length <=2 over 51 operator instances and <=3 '
+              'over 26 (thorough <=3 / <=4) from select/apply/assign/filter/batch/'
+              'sink with every key shape, each accepted chain on all 40 streams of '
+              '<=3 records through make().iterate() and make()(record), against a '
+              'plain-Python interpreter; build-time rejection compared; caller '
+              'inputs snapshot-compared; sinks seen-once and closed.',
+              'callables are pure string builders; re-batching sizes are C19\'s; '
+              'on a reference error the implementation must raise and its emitted '
+              'prefix must match'),
+    'C09': _c('E3-enumerators', 'exploration', _E3,
+              'Every length/split x shard count x index x offset, recursively '
+              'nested, through SequenceDataSource / ShardedIterable; every split x '
+              'index x slice x read-ahead through MergedSequences; one unreadable '
+              'element at each position through _RangeIterator; compared with '
+              'Python lists; recovery through from_state must yield the same shard.',
+              'small scope n<=8 (16), tagged integer rows, ShardedIterable single '
+              'level, no step slices'),
+    'C10': _c('E3-enumerators', 'fault_enumeration', _E3 + ' (all checkpoint cut vectors)',
+              'Every cut vector of <=3 (4) checkpoint generations x source '
+              'configuration x state transport (object/pickle) x restore route x '
+              'abandoned/continued iterator, on data-source iterators and eight '
+              'pipeline shapes; the uninterrupted run is the oracle for delivered '
+              'rows, agg_result and the StopIteration aggregate.',
+              'num_threads=0 (threaded restore is outside this revision); n<=5/4 '
+              '(7/6)'),
+    'C11': _c('E3-enumerators', 'model_checking', _E3 + ' + explicit-state BFS',
+              'All bracketings x permutations of <=3 (4) states from datasets of <=2 '
+              'rows agree; fresh state neutral on both sides; merge leaves its '
+              'operand intact and un-aliased; BFS depth 4/5 over add/merge/result '
+              'on two live objects, states rebuilt by replay and deduplicated by '
+              'structural fingerprint: every operation changes only its receiver, '
+              'result() is repeatable and non-disturbing.',
+              'a merge that raises for every grouping is C01\'s; seeded sampler '
+              'assumed deterministic'),
+    'C12': _c('E3-enumerators', 'fault_enumeration', _E3 + ' (all failure sets)',
+              'Every failure set (|F|<=2; thorough all) over n<=5 (6) elements x '
+              'failure in the data source or in one operator of apply + <=2 (3) of '
+              '{apply, assign, filter, sink} x Value/Type/KeyError x ignore_error '
+              'on/off x re-batching; skipping on => output, pairing and sink writes '
+              'equal a list interpreter that drops exactly the failing calls; off '
+              '=> raises with the injected object in the cause chain, exact '
+              'prefix, sinks closed.',
+              'num_threads=0; sink closure observed after the exception is '
+              'released'),
+    'C13': _c('E1-vsched', 'model_checking', _E1,
+              'piter_multiplex / piter_fn / piter / pmap / MultiplexIterator on a '
+              'virtual thread pool that honours max_workers (late task start), '
+              '1-3 sources, buffer 0/1, early stop, failing source at each '
+              'position: every schedule with <=2 preemptions (1 helper), <=1 (2 '
+              'helpers), free switches only (3-4 helpers) [thorough +1]; multiset '
+              'of values = sequential evaluation, generator returns collected, all '
+              'helper threads finish, pool shutdown returns.',
+              _GIL + '; pool model: FIFO task start when a worker frees'),
+    'C14': _c('E1-vsched', 'exploration', _E3 + ' through the fake transport + bounded schedule exploration',
+              '166 (thorough 256) lazy expressions (nested calls, attr/item/call '
+              'chains, kwargs, cached calls, five kinds of raising expressions) '
+              'evaluated locally and through CourierClient.get_result against a '
+              'real CourierServer; RemoteObject chains; RemoteIterator / '
+              'RemoteIteratorQueue over sources of length 0-3; shutdown at each '
+              'point of a 3-call history in 3 ways; two concurrent clients under '
+              'delay bound 1 (2).',
+              'client and server share one process and one lazy-object cache; '
+              'returned exceptions are pickled objects as with real courier'),
+    'C15': _c('E1-vsched', 'model_checking', _E1,
+              'A real PrefetchedCourierServer (prefetch thread, handlers, generator '
+              'lock, IteratorQueue) driven through init / next_batch / '
+              'stop_prefetch / shutdown: generator length 0-3, prefetch 1-2, batch '
+              '1-3, failure at each position, re-init / stop / shutdown after 0-2 '
+              'elements, one overlapping next+re-init; direct handler calls under '
+              'preemption bound 2 / 1 (thorough 3 / 2), through CourierClient under '
+              'delay bound 1 (2). Oracle: the generator as a list + exactly one end '
+              'marker, no element of the old generator after re-init, no request '
+              'left blocked.',
+              _GIL + '; one handler thread per request; no transport faults here'),
+    'C16': _c('E1-vsched', 'exploration', _E3 + ' of configurations on the fake transport + bounded schedule exploration',
+              '~390 configurations of sharded_pipelines_as_iterator (workers 1-2 '
+              '(3), shards 1-4, rows 0-7, iterate_batch_size 1/2/4, fused/unfused) '
+              'and run_pipeline_interleaved with a pool stage fed by a '
+              'RemoteIteratorQueue (workers 1-2, buffer 0/1/2, worker cap) under the '
+              'default schedule, the smallest of each under delay bound 1 (2); '
+              'outputs and the single final aggregate equal the in-process run; '
+              'merge_states strict count for all (m, n).',
+              'fake transport without faults; one fixture pipeline family '
+              '(apply + exact sum/count aggregate)'),
+    'C17': _c('E3-enumerators', 'model_checking', _E3 + ' + explicit-state BFS of cache histories',
+              'Every typed expression tree up to depth 2 / 3 calls (thorough depth '
+              '3, plus 4-call trees over one leaf) with every cache/lazy flag per '
+              'call is materialised directly, after pickle and after gzip pickle, '
+              'around clear_cache/clear_object, compared step by step with an eager '
+              'interpreter (value/exception, call log, cache_info, identity); all '
+              'operation histories to depth 6 (7) over LruCache (maxsize 1-3), the '
+              'lazy cache bounded to 2-3, the handle registry bounded to 1-2, and '
+              'fill/touch/overflow at the shipped bound 128, each replayed from '
+              'scratch and compared with an OrderedDict LRU in every state.',
+              '7 callables, 3 leaf kinds; pickle round trips stay in one process'),
+    'C18': _c('E3-enumerators', 'exploration', _E3,
+              'Every dict/list/tuple tree of depth <=2 with 0-2 children and '
+              'int/str/ndarray leaves (+ depth-3 spines; thorough all 335k depth-3 '
+              'shapes) x every existing and fresh key path, SELF, SKIP, literals x '
+              'single/multi-key/chained copy_and_set, copy_and_update, reads in '
+              'every spelling, keys/values/items/len, apply: get-after-set, frame '
+              'condition, original unchanged at every depth, set-to-current is the '
+              'identity, every leaf listed once.',
+              'root is a dict/list/tuple or the empty view; error kinds are not '
+              'compared'),
+    'C19': _c('E3-enumerators', 'exploration', _E3,
+              'Every sequence of <=4 (thorough <=5) input batch sizes x target x 1-3 '
+              'columns x container kinds x pad x given/inferred column count '
+              'through the real rebatched_args and through apply/select(batch_size, '
+              'fn_batch_size); output compared with concat-and-chunk on Python '
+              'lists.',
+              'sizes <=5, targets <=6; rows are tagged integers'),
+    'C20': _c('E1-vsched', 'model_checking', _E1 + ' + explicit-state BFS',
+              '(a) BFS of the real WorkerRegistry to depth 4 (6) over 16 operations '
+              'against a dict model; every history of <=4 (5) liveness events '
+              '(poll, time passing, pushed heartbeat / death notice, completed '
+              'call, server death, client shutdown) on a real client/server pair '
+              'with virtual time; (b) acquire/release programs of 2-3 WorkerPools '
+              'sharing Worker objects: every schedule with <=2 preemptions (2 pools '
+              'x 1 worker), <=1 (2 workers / 3 pools) [thorough +1], ownership '
+              'invariants after every operation.',
+              _GIL + '; workers are kept alive through the registry in (b)'),
 }
